@@ -14,6 +14,29 @@ from .. import corr, kern, helpers
 from . import common
 
 
+SHARED = {}      # input objects that live across a whole call sequence (as a caller's own Modes would): name -> (object, pristine bytes)
+
+
+def shared_inputs_intact():
+    """names of the shared input objects whose bytes differ from their pristine snapshot (and restore them)"""
+    bad = []
+    for k, (obj, snap) in SHARED.items():
+        a = np.asarray(obj.ndarray if hasattr(obj, "ndarray") else obj)
+        if a.tobytes() != snap:
+            bad.append(k)
+            a[...] = np.frombuffer(snap, dtype=a.dtype).reshape(a.shape)
+    return bad
+
+
+def raises(f):
+    """outcome of a call that is expected to be rejected: the exception class name as an array (comparable with `same`)"""
+    try:
+        f()
+    except Exception as e:   # noqa: BLE001
+        return np.frombuffer(type(e).__name__.encode().ljust(16), dtype=np.uint8).copy()
+    return np.zeros(16, dtype=np.uint8)
+
+
 def alphabet(rng, limited):
     """operations as (name, callable(w) -> ndarray).  9 kinds x contrasting rotations."""
     import spherical
@@ -26,6 +49,12 @@ def alphabet(rng, limited):
     L = 5
     mw = helpers.random_weights(rng, -1, 4)
     m0 = helpers.random_weights(rng, 0, 3, (2,))
+    # the caller's own objects, handed to many calls in a row (never rebuilt): no call may change them
+    SHARED.clear()
+    for key, obj in (("modes(s=-1,ell_max=4)", spherical.Modes(mw.copy(), spin_weight=-1, ell_min=0, ell_max=4)),
+                     ("modes(s=0,ell_max=3,2 rows)", spherical.Modes(m0.copy(), spin_weight=0, ell_min=0, ell_max=3))):
+        SHARED[key] = (obj, np.asarray(obj.ndarray).tobytes())
+    sh1, sh0 = SHARED["modes(s=-1,ell_max=4)"][0], SHARED["modes(s=0,ell_max=3,2 rows)"][0]
     for rn, R in rots.items():
         Rq = quaternionic.array(R)
         beta = complex(2 * (R[0] ** 2 + R[3] ** 2) - 1, 2 * math.sqrt((R[0] ** 2 + R[3] ** 2) * (R[1] ** 2 + R[2] ** 2)))
@@ -40,6 +69,16 @@ def alphabet(rng, limited):
         ops.append((f"evalH({rn})", lambda w, Rq=Rq: np.asarray(w.evaluate(spherical.Modes(mw.copy(), spin_weight=-1, ell_min=0, ell_max=4), Rq, horner=True))))
         ops.append((f"evalM({rn})", lambda w, Rq=Rq: np.asarray(w.evaluate(spherical.Modes(np.concatenate([mw, np.zeros(36 - 25)]) if False else helpers_pad(mw, 5), spin_weight=-1, ell_min=0, ell_max=5), Rq, horner=False))))
         ops.append((f"H({rn})", lambda w, b=beta: w.H(b, w.Hwedge, w.Hv, w.Hextra).copy()))
+        if rn in ("generic", "near-pole"):
+            ops.append((f"evalH-shared({rn})", lambda w, Rq=Rq: np.asarray(w.evaluate(sh1, Rq, horner=True))))
+            ops.append((f"evalM-shared({rn})", lambda w, Rq=Rq: np.asarray(w.evaluate(sh1, Rq, horner=False))))
+            # a request that is rejected (workspace too small) must leave nothing behind: neither in the object nor in the caller's input
+            ops.append((f"evalH-shared-small-ws({rn})", lambda w, Rq=Rq: raises(lambda: w.evaluate(sh1, Rq, workspace=np.zeros(5), horner=True))))
+            ops.append((f"sYlm-small-ws({rn})", lambda w, Rq=Rq: raises(lambda: w.sYlm(-1, Rq, workspace=np.zeros(5)))))
+            if not limited:
+                ops.append((f"rotateH-shared({rn})", lambda w, Rq=Rq: w.rotate(sh0, Rq, horner=True).ndarray))
+                ops.append((f"rotateM-shared({rn})", lambda w, Rq=Rq: w.rotate(sh0, Rq, horner=False).ndarray))
+                ops.append((f"rotateH-shared-small-ws({rn})", lambda w, Rq=Rq: raises(lambda: w.rotate(sh0, Rq, workspace=np.zeros(5), horner=True))))
         if rn in ("generic", "pole-"):
             # degenerate but legitimate requests: modes that contain no ell >= |s| (the zero function), an ell_max = 0 object
             ops.append((f"evalH-empty({rn})", lambda w, Rq=Rq: np.asarray(w.evaluate(spherical.Modes(np.zeros(4, dtype=complex), spin_weight=-3 if not limited else -1, ell_min=0, ell_max=1) if not limited else spherical.Modes(np.zeros(1, dtype=complex), spin_weight=0, ell_min=0, ell_max=0), Rq, horner=True))))
@@ -68,6 +107,14 @@ def helpers_pad(mw, L):
 BLAS = ("rotateM", "evalM")
 
 
+def check_inputs(run, limited, names):
+    bad = shared_inputs_intact()
+    if bad:
+        run.violation("call-modified-its-input", f"history:{'limited' if limited else 'full'}", {"sequence": list(names), "modified": bad, "limited": limited},
+                      "the caller's Modes object bit-for-bit unchanged (so that the next call sees the same argument)", "changed")
+    return bool(bad)
+
+
 def same(name, a, b):
     if name.startswith(BLAS):
         return a.shape == b.shape and np.allclose(a, b, rtol=1e-13, atol=1e-13)
@@ -88,6 +135,7 @@ def check(run):
         fresh = {}
         for name, f in ops:
             fresh[name] = np.array(f(make()), copy=True)
+            check_inputs(run, limited, [name])
         for name, f in ops:     # a call through a dirty explicit workspace is held to the result of the plain call on a fresh object
             if "ws=" in name:
                 base = name.replace("ws=nan,", "").replace("ws=1e300,", "")
@@ -109,6 +157,9 @@ def check(run):
             for k, i in enumerate(seq):
                 name, f = ops[i]
                 r = f(w)
+                if check_inputs(run, limited, [ops[j][0] for j in seq[:k + 1]]):
+                    bad = True
+                    break
                 if not same(name, np.asarray(r), fresh[name]):
                     run.violation("result-depends-on-history", f"history:{'limited' if limited else 'full'}", {"sequence": [ops[j][0] for j in seq[:k + 1]], "limited": limited},
                                   "what a fresh object returns", "differs")
